@@ -480,6 +480,24 @@ def encoder_regions(ctx, prog, f, is16):
     stores = [(e, k) for e, k in stores if const_val(e['y']) != 0]
     if len(stores) < 10 - (1 if is16 else 0) * 0:
         pass
+    # stores inside a loop nested in the scanning loop run a data-dependent number of times: site counting does not apply
+    def loop_depth_of(target):
+        best = [0]
+        def go(st, depth):
+            if not isinstance(st, dict):
+                return
+            if any(x is target for x in ir.stmt_own_exprs(st) for x in walk_expr(x)):
+                best[0] = max(best[0], depth)
+            d2 = depth + 1 if st.get('k') in ('for', 'while', 'do') else depth
+            for key in ('then', 'else', 'sub', 'body', 'init'):
+                go(st.get(key), d2 if key == 'body' else depth)
+            for c in st.get('s', []) or []:
+                go(c, depth)
+        go(f['body'], 0)
+        return best[0]
+    if any(loop_depth_of(e) >= 2 for e, _ in stores):
+        ctx.undecided('C08.layout', f['pq'], '%s:branch thresholds' % f['n'], fwhere(f), 'output bytes are stored by a loop nested in the scanning loop (data-dependent count): layout not decided by store sites')
+        return (cv, [], units[1:])
     dvars = [v for s_ in ir.walk_stmts(f['body']) if s_.get('k') == 'decl' for v in s_['vars'] if T(f, v['t']).get('bits') == 32 and v.get('init') is not None and
              any(const_val(w) == 0x10000 and w.get('k') == 'int' for w in walk_expr(v['init']))]
     consts = set()
@@ -839,41 +857,86 @@ def check_case(ctx, prog):
         if not g or 'init' not in g or g['init'].get('k') != 'str':
             raise AnalysisBroken('case table %s not found as a string-literal initialised array' % name)
         tabs[name] = g['init']['b'] + [0]
-    # largest index admitted by the guards
+    # largest table index the guards admit, by evaluation: the code variables of the index are bound to every value of
+    # 0..4095, the guards of the access (and, for an access inside a helper, of its call sites in the three functions) are
+    # evaluated, and the index expression itself is evaluated for the admitted values
+    import bounded, bytesets
     max_idx = {}
     cut = {}
+    targets = {}
     for fname in ('toUpperCase', 'toLowerCase', 'equalsNocase'):
         f = fn1(prog, 'asl::String::' + fname)
         ctx.analysed(f)
-        g = q.Guarded(f)
-        for e in fn_exprs(f):
-            if e.get('k') == 'idx' and strip(e['b']).get('k') == 'var' and strip(e['b']).get('q') in tabs:
-                tab = strip(e['b'])['q']
-                # index form code*2 (+1)
-                bound = None
-                for c, pol, kind in g.of(e):
-                    cc = strip(c)
-                    if kind == 'if' and cc.get('k') == 'bin' and cc.get('op') in ('<', '<=') and const_val(cc['y']) is not None and pol is True:
-                        bound = const_val(cc['y']) - (1 if cc['op'] == '<' else 0)
-                    if kind == 'if' and pol is False:
-                        # else of (a > K || b > K)
-                        ks = [const_val(strip(w)['y']) for w in conj_or(cc) if strip(w).get('op') == '>' and const_val(strip(w)['y']) is not None]
-                        ge = [const_val(strip(w)['y']) - 1 for w in conj_or(cc) if strip(w).get('op') == '>=' and const_val(strip(w)['y']) is not None]
-                        if ks or ge:
-                            bound = max(ks + ge)
-                if bound is None:
-                    ctx.undecided('C08.case', f['pq'], fname + ':table index guard', fwhere(f, e['l']), 'no dominating bound on the table index')
-                    continue
-                max_idx[(fname, tab)] = max(max_idx.get((fname, tab), 0), bound)
-                cut[fname] = bound
+        targets[fname] = f
+
+    def accesses(h):
+        return [e for e in fn_exprs(h) if e.get('k') == 'idx' and strip(e['b']).get('k') == 'var' and strip(e['b']).get('q') in tabs]
+    GRID = range(0, 4096)
+    for fname, f in targets.items():
+        G = q.Guarded(f)
+        sites = [(e, None, None) for e in accesses(f)]
+        for c in fn_exprs(f):
+            if c.get('k') == 'call' and c.get('fn') and not c.get('clsp'):
+                for h in prog.fn(c['fn'], c.get('sig')):
+                    if h.get('body') and h is not f:
+                        sites += [(e, c, h) for e in accesses(h)]
+        for e, call, h in sites:
+            tab = strip(e['b'])['q']
+            try:
+                if call is None:
+                    by_id, by_text = bounded.atoms_of(prog, f, e['i'], allow_assigned=tuple(bounded.assigned_vars(f)))
+                    guards = G.of(e)
+                else:
+                    by_id, by_text = {}, {}
+                    for a_ in call.get('a', []):
+                        bi, bt = bounded.atoms_of(prog, f, a_, allow_assigned=tuple(bounded.assigned_vars(f)))
+                        by_id.update(bi)
+                        by_text.update(bt)
+                    guards = G.of(call)
+            except bytesets.Undecidable as u:
+                ctx.undecided('C08.case', f['pq'], fname + ':table index guard', fwhere(f, (call or e)['l']), str(u))
+                continue
+            top = None
+            rel = lambda c_: any((w.get('k') == 'var' and w.get('id') in by_id) or (w.get('k') in ('call', 'mem') and pe(w) in by_text) for w in walk_expr(q.expand(f, c_, bools_only=True)))
+            try:
+                for v in GRID:
+                    ev = bounded.Bound(prog, f, dict((i, v) for i in by_id), dict((t, v) for t in by_text))
+                    if not bounded.admitted(ev, guards, G):
+                        continue
+                    if call is None:
+                        iv = ev.ev(e['i'])
+                    else:
+                        env = {}
+                        for p_, a_ in zip(h['params'], call.get('a', [])):
+                            env[p_['id']] = ev.ev(a_)
+                        Gh = q.Guarded(h)
+                        evh = bounded.Bound(prog, h, env, {})
+                        if not bounded.admitted(evh, Gh.of(e), Gh):
+                            continue
+                        iv = evh.ev(e['i'])
+                    ctx.evaluations += 1
+                    if top is None or iv > top[0]:
+                        top = (iv, v)
+            except bytesets.Undecidable as u:
+                ctx.undecided('C08.case', f['pq'], fname + ':table index guard', fwhere(f, (call or e)['l']), 'index `%s` not evaluable: %s' % (pe(e['i']), u))
+                continue
+            if top is None:
+                continue
+            if top[1] >= GRID[-1]:
+                ctx.violation('C08.case', f['pq'], fname + ':table index guard', fwhere(f, (call or e)['l']), 'no dominating bound on the index of %s (`%s` admitted for every code up to %d): out-of-bounds table read' % (tab, pe(e['i']), top[1]))
+                continue
+            key = (fname, tab)
+            if key not in max_idx or top[0] > max_idx[key][0]:
+                max_idx[key] = top
+            cut[fname] = max(cut.get(fname, 0), top[1])
     if len(max_idx) < 3:
         raise AnalysisBroken('case-table accesses not found in toUpperCase/toLowerCase/equalsNocase: %s' % max_idx)
-    for (fname, tab), mx in sorted(max_idx.items()):
-        need = 2 * mx + 2
+    for (fname, tab), (mx, code) in sorted(max_idx.items()):
+        need = mx + 1
         have = len(tabs[tab])
         ctx.evaluations += 1
         ctx.check(have >= need, 'C08.case', 'asl::String::' + fname, fname + ':table covers the admitted indices', '/repo/src/unicodedata.cpp:0',
-                  '%s has %d bytes >= %d' % (tab, have, need), '%s admits code points up to %d (needs %d table bytes) but %s has %d bytes: out-of-bounds table read' % (fname, mx, need, tab, have))
+                  '%s has %d bytes >= %d' % (tab, have, need), '%s admits code points up to %d (table index %d, needs %d bytes) but %s has %d bytes: out-of-bounds table read' % (fname, code, mx, need, tab, have))
     for name, tab in tabs.items():
         upper = 'Upper' in name
         bad_ascii = []
